@@ -686,3 +686,71 @@ for _p in ("C02", "C10"):
           "                result[self.elapsed_time_attr] -= elapsed_time_offset\n",
           "                result[self.elapsed_time_attr] = result[self.elapsed_time_attr] - elapsed_time_offset\n"),
     ]
+
+_SB = "syne_tune/optimizer/schedulers/searchers/searcher_base.py"
+VARIANTS["C16"] += [
+    B("restrict_configurations: key tested but its value not restored", _SB,
+      "        if k in state:\n            self._restrict_configurations = state[k]\n            self._rc_returned_pos = set()",
+      "        if k in state:\n            self._rc_returned_pos = set()"),
+    E("restrict_configurations restored through get()", _SB,
+      "        if k in state:\n            self._restrict_configurations = state[k]\n            self._rc_returned_pos = set()\n        else:\n            self._restrict_configurations = None\n            self._rc_returned_pos = None",
+      "        self._restrict_configurations = state.get(k)\n        self._rc_returned_pos = set() if k in state else None"),
+]
+
+_CBL_OLD = """                for callback in self.callbacks:
+                    callback.on_trial_result(
+                        trial=trial,
+                        status=status,
+                        result=result,
+                        decision=decision,
+                    )
+"""
+VARIANTS["C17"] += [
+    B("callbacks hear of a result only if the trial goes on", T, _CBL_OLD,
+      """                if decision == SchedulerDecision.CONTINUE:
+                    for callback in self.callbacks:
+                        callback.on_trial_result(
+                            trial=trial,
+                            status=status,
+                            result=result,
+                            decision=decision,
+                        )
+"""),
+    B("only the first callback hears of a result", T, _CBL_OLD,
+      """                for callback in self.callbacks[:1]:
+                    callback.on_trial_result(
+                        trial=trial,
+                        status=status,
+                        result=result,
+                        decision=decision,
+                    )
+"""),
+    B("store_results writes only when no path is set", "syne_tune/results_callback.py",
+      "        if self.csv_file is not None:\n            self.dataframe().to_csv(self.csv_file, index=False)",
+      "        if self.csv_file is None:\n            self.dataframe().to_csv(self.csv_file, index=False)"),
+    E("callback loop over an alias of the list", T, _CBL_OLD,
+      """                cbs = self.callbacks
+                for callback in cbs:
+                    callback.on_trial_result(
+                        trial=trial,
+                        status=status,
+                        result=result,
+                        decision=decision,
+                    )
+"""),
+]
+
+VARIANTS["C19"] += [
+    B("epsilon net: chosen position not put on the order list", ND,
+      "        order.append(choice)\n        indices.remove(choice)",
+      "        indices.remove(choice)"),
+    B("epsilon net: seed item stays in the work set", ND,
+      "    order = [initial_index]\n    indices.remove(initial_index)",
+      "    order = [initial_index]"),
+    E("epsilon net: removal before the append", ND,
+      "        order.append(choice)\n        indices.remove(choice)",
+      "        indices.remove(choice)\n        order.append(choice)"),
+    E("epsilon net: loop on the size of the work set", ND,
+      "    while indices:",
+      "    while len(indices) > 0:"),
+]
